@@ -169,6 +169,36 @@ fn diff_keygen_search() {
     keygen_search!(ml_dsa_87, P87, bad);
     assert!(bad == 0, "VERIF-PROPERTY-VIOLATED differential(keygen_search): {} disagreement(s) with the FIPS 204 reference", bad);
 }
+macro_rules! roundtrip_search {
+    ($set:ident, $bad:ident) => {{
+        use crate::$set as S;
+        let mut xi = [0u8; 32]; xi[..8].copy_from_slice(&SEED.to_le_bytes());
+        let (pk, sk) = S::KG::keygen_from_seed(&xi);
+        let pk_d = sk.get_public_key();
+        for i in 0..(N_SEEDS as u64) {
+            let msg = i.to_le_bytes();
+            let mut rnd = [0u8; 32]; rnd[..8].copy_from_slice(&(i ^ 0x5555).to_le_bytes());
+            let r = std::panic::catch_unwind(|| {
+                let sig = sk.try_sign_with_rng(&mut ReplayRng(rnd, 0), &msg, b"rt").unwrap();
+                (pk.verify(&msg, &sig, b"rt"), pk_d.verify(&msg, &sig, b"rt"))
+            });
+            match r {
+                Err(_) => { std::println!("DIFF {} sign/verify panics, message counter {}", stringify!($set), i); $bad += 1; }
+                Ok((a, b)) => if !a || !b { std::println!("DIFF {} honest signature rejected (generated pk: {}, derived pk: {}), key seed {:02x?}, message counter {}", stringify!($set), a, b, &xi[..8], i); $bad += 1; }
+            }
+            if $bad > 2 { break; }
+        }
+    }};
+}
+/// directed search for rare completeness failures (events of probability about 1e-4 per signature): honest sign -> verify
+#[test]
+fn diff_roundtrip_search() {
+    let mut bad = 0u32;
+    roundtrip_search!(ml_dsa_87, bad);
+    if bad == 0 { roundtrip_search!(ml_dsa_65, bad); }
+    if bad == 0 { roundtrip_search!(ml_dsa_44, bad); }
+    assert!(bad == 0, "VERIF-PROPERTY-VIOLATED roundtrip: {} honest signature(s) rejected", bad);
+}
 #[test] fn diff_keygen() { run_all("keygen") }
 #[test] fn diff_sign() { run_all("sign") }
 #[test] fn diff_verify() { run_all("verify") }
